@@ -55,3 +55,16 @@ func init() {
 		OutsideBounds: []string{"segment overrides", "label displacements", "displacements written as hex literals or expressions (C06)", "16-bit addressing registers in 32-bit mode beyond the listed known finding"},
 	}
 }
+
+func init() {
+	properties["C18"] = &propSpec{ID: "C18",
+		Quick:    tierSpec{Harnesses: []harnessSpec{{Func: gp + "internal/zzverif.VC18", Discover: 3, Reach: []string{"c18.accepted"}}}},
+		Thorough: tierSpec{Harnesses: []harnessSpec{{Func: gp + "internal/zzverif.VC18", Discover: 3, Params: map[string]int{"alldigits": 1}, Reach: []string{"c18.accepted"}}}},
+		Bounds: []string{
+			"ADD OR AND SUB XOR CMP x every register of width 8/16/32 and memory destinations [BX], [EBX], [abs] with BYTE/WORD/DWORD x immediates of 1..10 decimal digits (quick: classes 1,3,5,10), both modes",
+			"MOV accumulator <-> absolute address (0..65535), MOV r,imm for every register, PUSH/POP of every 16/32-bit register, PUSH imm",
+			"asserted: emitted length <= minlen(statement, mode), minlen being a lenient specification of the shortest valid encoding (imm8 sign-extended form demanded only when the immediate as written lies in [-128,127]; accumulator short form; moffs; B0+r/B8+r; 50+r/58+r; 6A ib)",
+		},
+		OutsideBounds: []string{"memory destinations with displacements or SIB", "immediates whose value modulo the operand width would fit imm8 although the written value does not (e.g. ADD AX,0xFFFF): no length is demanded there", "that the bytes are a correct encoding at all (C01)"},
+	}
+}
